@@ -87,7 +87,7 @@ func (c *Ctx) findExecScan(exec *ssa.Function) *execScan {
 	var found *execScan
 	var look func(f *ssa.Function, top *ssa.Call, depth int)
 	look = func(f *ssa.Function, top *ssa.Call, depth int) {
-		allInstrs(f, func(_ *ssa.BasicBlock, in ssa.Instruction) {
+		allInstrs(f, func(cb *ssa.BasicBlock, in ssa.Instruction) {
 			call, ok := in.(*ssa.Call)
 			if !ok || found != nil || depth > 2 {
 				return
@@ -95,6 +95,12 @@ func (c *Ctx) findExecScan(exec *ssa.Function) *execScan {
 			h := call.Common().StaticCallee()
 			if !isUnknownHelper(h) {
 				return
+			}
+			// a helper that is only called for the FROM-less (dual) source is that arm's own small pipeline, not the scan
+			for _, fc := range factsAt(cb) {
+				if ft := NewTB().Of(fc.cond); ft.Op == "field" && ft.Name == "dual" && fc.truth {
+					return
+				}
 			}
 			t := top
 			if t == nil {
